@@ -66,9 +66,7 @@ func specValid(ks *tinkpb.Keyset) bool {
 }
 
 func valMax() int {
-	if verifrt.Thorough() {
-		return 4
-	}
+	// 4 keys need several million paths (every key forks on nil / enum ranges): 3 in both tiers
 	return 3
 }
 
